@@ -156,6 +156,12 @@ def process_fits(run, results):
                     "predict": [(p["set"], p["kinds"], p.get("identical"), p.get("n_pred")) for p in obs.get("predict", [])],
                     "n_warnings": len(obs.get("warnings", [[]])[0]), "n_dq": len(obs.get("dq", [[]])[0])}, limit=14)
         ok.append(res)
+    # a family none of whose fits succeeded would silently drop out of the check
+    for fam in sorted({r["job"]["family"] for r in results}):
+        if not any(r["job"]["family"] == fam for r in ok):
+            run.corr_failures.append({"stream": "itself", "case": {"family": fam},
+                                      "impl": [r.get("crash") for r in results if r["job"]["family"] == fam][:3],
+                                      "model": "no %s model could be fitted, so nothing was observed for this family" % fam})
     return ok
 
 
@@ -200,9 +206,9 @@ def fit_jobs(run):
     r = run.rng
     if run.quick():
         plan = [("daily", "current"), ("daily", "legacy"), ("daily", "current-dev"), ("daily", "legacy-dev"),
-                ("daily", "legacy-season"), ("billing", "billing"), ("billing", "billing-season"),
+                ("billing", "billing"), ("billing", "billing-season"),
                 ("hourly", "default"), ("hourly", "default-solar"), ("hourly", "robust"), ("hourly", "no-edge-bins"),
-                ("hourly", "float-width"), ("caltrack", "caltrack")]
+                ("caltrack", "caltrack")]
     else:
         plan = []
         for i in range(max(3, int(40 * scale()))):
@@ -275,7 +281,7 @@ def main():
             corpus = os.path.join(vlib.VERIF, "corpus", "C01.json")
             if os.path.exists(corpus):
                 cases += json.load(open(corpus))
-            n = run.n(300, max(300, int(12500 * scale())))
+            n = run.n(260, max(300, int(12500 * scale())))
             for k in range(n):
                 cases.append(c01lib.gen_doc(run.rng, k, splits, corner=(k % 97 == 13)))
             for i, c in enumerate(cases):
